@@ -175,18 +175,23 @@ def replay_scripts(chk, binary):
                                   "UpdateKeys_returned": returned, "scripts_diverging": diverged, "scripts_with_projection_only_differences": soft}
     if (commits == 0 or returned == 0 or delivered == 0 or steps < 1000) and not chk.violations:
         raise vlib.Inconclusive("vacuous script replay (%d steps, %d commits, %d returns, %d payloads)" % (steps, commits, returned, delivered))
-    if diverged > max(3, len(rows) // 50) and not chk.violations:
-        raise vlib.Inconclusive("model diverges from the implementation on %d of %d scripts (see notes)" % (diverged, len(rows)))
     for k in range(min(len(covered), 4000)):
         chk.distinct.add("edge%d" % k)
+    if diverged > max(3, len(rows) // 50) and not chk.violations:
+        # the implementation no longer follows the model: the scripts cannot be trusted to reach the states they name.  The
+        # free-running part does not depend on the model's predictions and still runs; the verdict is given after it.
+        return "model diverges from the implementation on %d of %d scripts (see notes)" % (diverged, len(rows))
+    return None
 
 
 def run(chk):
     run_model(chk)
     binary = vlib.build("root", race=not chk.quick)
-    replay_scripts(chk, binary)
+    diverging = replay_scripts(chk, binary)
     import checks.c20_free as free
     free.run_free(chk, binary)
+    if diverging and not chk.violations:
+        raise vlib.Inconclusive(diverging)
     # at most once ACROSS several key updates: arrival scripts of spec/ReplayEpochs.tla (a record replayed after up to three
     # further updates; every read generation is retained, so only the per-epoch windows stand between a duplicate and Read)
     import checks.c06 as c06
